@@ -120,7 +120,8 @@ Section Half.
       net_of s' x = [] /\ net_of s' (other x) = [] /\ panicked s' = false /\
       (forall y, sub_of s' y = sub_of s y) /\ del_of s' x = del_of s x /\
       del_of s' (other x) = del_of s (other x) ++ [bytes] /\
-      waiting tx' a b (zlen bytes) /\ acking ty' b (wadd a (zlen bytes)).
+      waiting tx' a b (zlen bytes) /\ acking ty' b (wadd a (zlen bytes)) /\
+      mtu tx' = mtu tx /\ mtu ty' = mtu ty.
   Proof.
     intros Ex Ey Nx Ny Pn
       (W1 & W2 & W3 & W4 & W5 & W6 & W7 & W8 & W9 & W10 & W11 & W12 & W13 & W14 & W15 & W16 & W17)
@@ -196,7 +197,7 @@ Section Half.
     { rewrite Hit2. intros ->. cbn in Hn. lia. }
     rewrite (recv_eval_data s5 (other x) ty2 Ey5 Hne). rewrite Hit2.
     exists (set_in_text tx3 []), (set_in_text ty2 []).
-    splits; try (subst s5 s4 s3' s3 s2' s2 s1; now sysr).
+    splits; try (subst s5 s4 s3' s3 s2' s2 s1; now sysr); try reflexivity.
     - intros y. subst s5 s4 s3' s3 s2' s2 s1. now sysr.
     - unfold waiting. subst tx3 tx2 tx1. tcb_simpl. fold n.
       splits; try assumption; try reflexivity; try congruence.
